@@ -579,6 +579,15 @@ func runC05(c *core.Ctx) {
 		case 3:
 			text = pick(rng, "unique", "ints")
 			v = reflect.ValueOf([3]int{rng.Intn(3), rng.Intn(3), 7})
+		case 4:
+			// elements are compared one by one: a comma inside an element separates nothing
+			text = pick(rng, "unique", "unique|msg")
+			pool := [][]string{{"a,b", "b"}, {"1,2", "2,3"}, {"a,a"}, {","}, {"a,b", "a,b"}, {"a,b", "a", "b"}, {",", ",,"}, {"x,y", "y,x"}, {"a", "a,"}, {"1,1", "1"}}
+			v = reflect.ValueOf(pool[rng.Intn(len(pool))])
+		case 5:
+			text = "unique"
+			pool := [][2]string{{"a,b", "b"}, {"a,a", "a"}, {",", ""}, {"q,r", "q,r"}}
+			v = reflect.ValueOf(pool[rng.Intn(len(pool))])
 		}
 		if v.IsZero() {
 			continue
